@@ -12,6 +12,7 @@ CONSTANTS
   T = 1
   MaxTime = 3
   EarlyCancel = FALSE
+  NoTimeouts = FALSE
   Mode = "mc"
   SymBreak = FALSE
   Dev_OpnTimeoutWedge = FALSE
